@@ -151,7 +151,8 @@ C05_URLS = [
     "https://u@example.com/a%20b/c%2Fd?k=a%26b&j=%3D#x%20y", "http://example.com/a/?k", "http://example.com/a?=v&k=",
     "http://facebook.com/x?_rdr=1&k=v", "http://youtube.com/watch?v=abc&t=10&si=zz", "  http://example.com/x\x00y  ",
     "http://example.com/a.amp/", "http://example.com/amp", "http://example.com/x/index.amp.html", "http://example.com/.index",
-    "ftp://www.example.com/index.html", "http://example.com:8080", "http://example.com:81/?a=1&a=1&b",
+    "ftp://www.example.com/index.html", "http://example.com:8080", "http://example.com/static/default.min.css", "http://example.com/js/index.bundle.js?v=1",
+    "http://example.com/a/index.php.bak", "http://example.com/a/index..html", "http://example.com/Index.html", "http://example.com/a/indexes.html", "http://example.com:81/?a=1&a=1&b",
     # strings the parser rejects or that have no host
     "http://example.com:badport/x", "http://example.com:99999/x", "http://[::1/x", "http://a]b/", "", "   ", "http://", "//", "?", "#",
     "http://[::1]:8080/x?utm_source=1", "http://192.168.0.1/index.html", "http://localhost/index.html",
@@ -177,6 +178,33 @@ LRU = {
 }
 
 
+# ---------------------------------------------------------------- C20: protocol helpers and builders
+def val(kind, text):
+    return {"k": kind, "t": cp(text)}
+
+
+C20 = {
+    "alphabet": [ord(c) for c in "aB:/ ."],
+    "protocols": [cp(x) for x in ["http", "https", "ftp", "wss", "custom", "http://", "HTTPS:", "ftp:/"]],
+    "urls": [cp(x) for x in ["http://lemonde.fr/a", "lemonde.fr", "//lemonde.fr/x?y=1", "HTTPS://Lemonde.fr", "ftp://a.b/c", "mailto:x@y.z",
+                              "a://b://c", "http://http://x", "////", "abc:def//g", "://x", "wss://h:80/p#f", " http://a.com", ""]],
+    "bases": [cp(x) for x in ["http://lemonde.fr", "http://lemonde.fr/", "http://lemonde.fr/test", "http://lemonde.fr/test/", "https://a.com//",
+                               "http://a.com?x=1", "http://a.com/p#frag", "http://a.com/p?x=1#frag"]],
+    # kind n(one) s(tring) l(ist); uniform records (s: text, l: list of texts)
+    "paths": [{"k": "n", "s": [], "l": []}] + [{"k": "s", "s": cp(x), "l": []} for x in ["second", "/second", "a/b/", "//x", "é t"]]
+             + [{"k": "l", "s": [], "l": [cp(y) for y in x]} for x in [["business", "articles"], ["a", "2"], []]],
+    "exts": [{"has": False, "t": []}, {"has": True, "t": cp("html")}, {"has": True, "t": cp(".json")}],
+    "fragments": [{"has": False, "t": []}] + [{"has": True, "t": cp(x)} for x in ["test", "#test", "a b", ""]],
+    # argument values: kind s(tr) i(nt) f(loat) T(rue) F(alse) N(one); t = str(value)
+    "values": [val("s", "world"), val("s", "test=ok"), val("s", "a&b#c?d%e+f g"), val("s", "é"), val("s", ""), val("i", "14"), val("i", "0"),
+               val("i", "1"), val("f", "1.5"), val("T", "True"), val("F", "False"), val("N", "None")],
+    "keys": [cp(x) for x in ["hello", "k", "a&b", "q?=", "é", "x y", "number"]],
+    "addarg_urls": [cp(x) for x in ["http://lemonde.fr", "http://lemonde.fr/", "http://lemonde.fr?x=1", "http://lemonde.fr/p?x=1&y=2#frag", "http://lemonde.fr#frag",
+                                     "lemonde.fr/p?", "http://lemonde.fr/p?x=a%20b#f?g"]],
+    "pathsplit": [cp(x) for x in ["", "/", "/a", "a/b", "/a/b/", "//a//b//", " /a/b ", "/a b/c"]],
+}
+
+
 def main():
     d = os.path.join(ROOT, "spec", "data")
     os.makedirs(d, exist_ok=True)
@@ -188,6 +216,8 @@ def main():
     sys.path.insert(0, "/repo")
     from ural.data import ISO_3166_1_COUNTRIES_ALPHA_2  # data the property is stated over, not logic
     NORM["countries"] = [cp(c.lower()) for c in sorted(ISO_3166_1_COUNTRIES_ALPHA_2)]
+    with open(os.path.join(d, "c20.json"), "w") as f:
+        json.dump(C20, f, separators=(",", ":"))
     with open(os.path.join(d, "lrugen.json"), "w") as f:
         json.dump(LRU, f, separators=(",", ":"))
     with open(os.path.join(d, "c05urls.json"), "w") as f:
